@@ -1030,6 +1030,13 @@ def run_C12(ck):
         for rd, wr in [('all', 'all'), ('7,3', '5,2'), ('1', '1')] if len(line) < 3000 else [('all', 'all'), ('500', '300')]:
             probes.append({'line': '%s rd=%s wr=%s' % (line, rd, wr), 'meta': {'op': op, 'rd': rd, 'wr': wr}, 'op': op, 'exp': exp, 'base': line, 'rd': rd, 'wr': wr})
     run_both(ck, probes)
+    # what the encoders emitted must decode back to their input (this is what "the correct output" means for them)
+    rt = []
+    for p in probes:
+        if p['op'].endswith('_enc') and p['r'].get('verdict') == 'ok':
+            d = {'line': '%s in=%s' % ({'lzma_enc': 'lzma_dec opt=rfh', 'lzma2_enc': 'lzma2_dec', 'xz_enc': 'xz_dec'}[p['op']], p['r']['out'])}
+            p['rt'] = d; rt.append(d)
+    run_both(ck, rt)
     cases = []
     for p in probes:
         ck.note_case(p['line'], False)
@@ -1038,6 +1045,10 @@ def run_C12(ck):
             if r.get('verdict') != 'ok': return 'fault-free run failed'
             if c['exp'] is not None and unhx(r['out']) != c['exp']: return 'fault-free output wrong (short-writing sink must still receive everything)'
             if c['op'] in ('lzma_dec', 'lzma2_dec') and int(r.get('fl', 0)) < 1: return 'decoder did not flush the sink on success'
+            if 'rt' in c:
+                src_data = c['base'].split('in=')[1].split(' ')[0]
+                if c['rt']['r'].get('verdict') != 'ok' or c['rt']['r'].get('out') != src_data:
+                    return 'encoder output through a %s sink does not decode back to the input' % ('short-writing' if c['wr'] != 'all' else 'normal')
             return None
         if not judge(ck, p, ['verdict', 'out', 'pos'], oracle0, 'both'): continue
         good = unhx(p['r']['out'])
@@ -1265,21 +1276,27 @@ def run_C16(ck):
         for kind, data in variants:
             for rep in range(2 if kind == 'overlong' else 1):
                 how = rng.choice(['random', 'random', 'bytes', 'single', 'early']) if len(data) < 300 else rng.choice(['random', 'single'])
-                lens = [rng.choice([7, 9, 17, 18, 34, 51, 3, 13])] * (len(data) // 7 + 2) if kind == 'overlong' and rng.chance(1, 2) else chunkings(rng, len(data), how)
+                if kind == 'overlong' and rng.chance(1, 2):
+                    k = rng.choice([7, 9, 17, 18, 34, 51, 3, 13])
+                    lens = [k] * (len(data) // k + 1)
+                else:
+                    lens = chunkings(rng, len(data), how)
                 calls = []
                 for p in pieces(data, lens):
                     if not p and kind == 'overlong': continue
-                    calls.append('w:%s' % hx(p)); calls.append('g')
+                    # 'W' re-offers what a write did not take (like write_all, but stopping at Ok(0)); 'w' is a single call
+                    calls.append('%s:%s' % ('W' if kind in ('overlong', 'valid') or rng.chance(1, 2) else 'w', hx(p))); calls.append('g')
                     if rng.chance(1, 6): calls.append('f')
                 for _ in range(rng.range(1, 3)):
                     calls.append('w:%s' % hx(rng.bytes(rng.range(1, 30)))); calls.append('g')
                 calls.append('x')
-                cases.append({'line': 'stream opt=rfh calls=%s' % ';'.join(calls), 'meta': {'kind': kind, 'style': s['style'], 'n': s['n']}, 'n': s['n'], 'style': s['style']})
+                cases.append({'line': 'stream opt=rfh calls=%s' % ';'.join(calls), 'meta': {'kind': kind, 'style': s['style'], 'n': s['n']}, 'n': s['n'], 'style': s['style'],
+                              'kind': kind, 'true_out': s['out'], 'valid_len': len(b)})
                 ck.count('kind_' + kind)
     run_both(ck, cases)
     for c in cases:
         res = c['r'].get('res', '').split(';')
-        ck.note_case(c['line'], 'w:err' in res or (c['style'] == 'sized' and any(x == 'g:%d' % c['n'] for x in res)))
+        ck.note_case(c['line'], 'w:err' in res or any(x.startswith('W:err') for x in res) or c['kind'] == 'overlong')
         def oracle(c):
             calls = c['r'].get('res', '').split(';')
             if any('panic' in x for x in calls): return 'a call sequence panicked'
@@ -1295,12 +1312,142 @@ def run_C16(ck):
                     if c['style'] == 'sized' and g >= c['n'] and c['n'] > 0: done = True
                     if c['style'] == 'sized' and g > c['n']: return 'more bytes than the declared size were delivered'
                     last_g = g
-                elif x.startswith('w:'):
-                    if failed and x != 'w:0': return 'a write after a failed write returned %s instead of Ok(0)' % x
-                    if x == 'w:err': failed = True
+                elif x.startswith('w:') or x.startswith('W:'):
+                    if failed and x not in ('w:0', 'W:zero:0', 'W:ok:0'): return 'a write after a failed write returned %s instead of Ok(0)' % x
+                    if x == 'w:err' or x.startswith('W:err'): failed = True
                 elif x.startswith('f:'):
                     if failed and x != 'f:ok': return 'flush after a failed write returned %s' % x
                 elif x.startswith('x:'):
                     if failed and x != 'x:err': return 'finish after a failed write did not return an error'
+            if c['kind'] == 'overlong':
+                # the declared size is reached inside the input: nothing after it may be consumed or change the output
+                if calls[-1] != 'x:ok': return 'stream with data after its declared size did not finish successfully'
+                if unhx(c['r'].get('out', '-')) != c['true_out']: return 'output changed after the declared size was reached'
+                eaten = sum(int(x[2:]) for x in calls if x.startswith('w:') and x[2:].isdigit()) + sum(int(x.split(':')[2]) for x in calls if x.startswith('W:'))
+                if eaten > c['valid_len'] + 20: return 'writes kept consuming input (%d bytes) after the declared size was reached at byte %d' % (eaten, c['valid_len'])
             return None
         judge(ck, c, ['res', 'out'], oracle, 'both')
+
+# ------------------------------------------------------------------ C07: totality
+def mutate_bytes(rng, b):
+    """structured mutations: bit flips, byte extremes, 32/64-bit field extremes, truncation, duplication, splicing"""
+    if not b: return rng.bytes(rng.range(0, 8))
+    m = bytearray(b)
+    r = rng.below(8)
+    if r == 0:
+        for _ in range(rng.range(1, 4)):
+            p = rng.below(len(m)); m[p] ^= 1 << rng.below(8)
+    elif r == 1:
+        p = rng.below(len(m)); m[p] = rng.choice([0, 0xFF, 0x80, 0x7F, 1])
+    elif r == 2:
+        p = rng.below(len(m)); v = rng.choice([0, 0xFFFFFFFF, 0x80000000, 0x7FFFFFFF, 0x40000001, 1])
+        m[p:p + 4] = struct.pack(rng.choice(['<I', '>I']), v)
+    elif r == 3:
+        p = rng.below(len(m)); v = rng.choice([0, ALL_ONES, 1 << 63, (1 << 63) - 1, 1 << 32, ALL_ONES - 1])
+        m[p:p + 8] = struct.pack('<Q', v)
+    elif r == 4:
+        m = m[:rng.below(len(m) + 1)]
+    elif r == 5:
+        p, q = sorted([rng.below(len(m) + 1), rng.below(len(m) + 1)])
+        m = m[:q] + m[p:q] + m[q:]
+    elif r == 6:
+        p, q = sorted([rng.below(len(m) + 1), rng.below(len(m) + 1)])
+        m = m[:p] + m[q:]
+    else:
+        p = rng.below(len(m)); m[p:p] = rng.bytes(rng.range(1, 12))
+    return bytes(m)
+
+@prop('C07', 'every decoding entry point (LZMA x 5 option forms, LZMA2, XZ, Stream under random chunkings, raw decoders with arbitrary accepted parameters) on uniformly random bytes, structured mutations of well-formed inputs (bit flips, field extremes 0 / 0xFF.. / 2^31 / 2^32-1, truncation, duplication, splicing), headers announcing huge dictionaries/sizes, near-valid XZ/LZMA2 files, and the regression corpus of earlier panics; run in the overflow-checked and in the release build under catch_unwind and a watchdog, peak live heap measured by a counting allocator; non-trivial = input longer than 18 bytes',
+      ['real heap and wall-clock time are measured by the harness (allocator, watchdog), not proved; the model proves buffer-length and fuel bounds'])
+def run_C07(ck):
+    rng = Rng(ck.seed).fork('C07')
+    quick = ck.tier == 'quick'
+    N = 1 if quick else 8
+    lz = gen_lzma_streams(rng, 40 * N, big_every=10, max_syms=40)
+    l2 = gen_lzma2_streams(rng, 30 * N)
+    xzs = gen_xz_files(rng, 30 * N, [p for p in l2 if len(p['bytes']) < 3000] or l2)
+    cases = []
+    def add(line, kind):
+        cases.append({'line': line, 'meta': {'kind': kind}}); ck.count('kind_' + kind)
+    OPTS = ['rfh', 'rhp:none', 'rhp:%d', 'up:none', 'up:%d']
+    def opt(): 
+        o = rng.choice(OPTS)
+        return o % rng.choice([0, 1, 100, 1 << 31, (1 << 32) - 1, ALL_ONES - 1]) if '%d' in o else o
+    def mem(): return rng.choice(['none', 'none', '0', '1', '4096', str(ALL_ONES)])
+    for _ in range(300 * N):
+        b = rng.bytes(rng.choice([0, 1, 4, 5, 12, 13, 17, 18, 19, 30, 60, 200]))
+        if rng.chance(1, 2) and len(b) >= 13:       # plausible header in front of noise
+            b = bytes([rng.below(225)]) + struct.pack('<I', rng.choice([0, 4096, 1 << 20, 0xFFFFFFFF])) + (b'\xff' * 8 if rng.chance(1, 2) else struct.pack('<Q', rng.choice([0, 5, 1 << 40]))) + b[13:]
+        add('lzma_dec opt=%s mem=%s in=%s rd=%s' % (opt(), mem(), hx(b), rng.choice(['all', '1', '3,5'])), 'random_lzma')
+        add('stream opt=%s mem=%s allow=%d calls=%s' % (opt(), mem(), rng.below(2), stream_calls(b, chunkings(rng, len(b), rng.choice(['whole', 'bytes', 'random', 'early'])))), 'random_stream')
+        b2 = bytes([rng.choice([0, 1, 2, 3, 0x7f, 0x80, 0xa0, 0xc0, 0xe0, 0xff])]) + rng.bytes(rng.range(0, 40))
+        add('lzma2_dec in=%s' % hx(b2), 'random_lzma2')
+        add('xz_dec in=%s' % hx(XZ_MAGIC + rng.bytes(rng.range(0, 60)) if rng.chance(1, 2) else rng.bytes(rng.range(0, 60))), 'random_xz')
+        add('raw_lzma lc=%d lp=%d pb=%d dict=%d size=%s mem=%s ops=d:%s;r;d:%s' % (rng.range(0, 8), rng.range(0, 4), rng.range(0, 4), rng.choice([0, 1, 2, 7, 4096, 0xFFFFFFFF]),
+            rng.choice(['none', '0', '3', str(ALL_ONES)]), mem(), hx(rng.bytes(rng.range(0, 40))), hx(rng.bytes(rng.range(0, 20)))), 'random_raw')
+        add('raw_lzma2 ops=d:%s;r;d:%s' % (hx(b2), hx(rng.bytes(rng.range(0, 20)))), 'random_raw2')
+    for s in lz:
+        for _ in range(6):
+            m = mutate_bytes(rng, s['bytes'])
+            add('lzma_dec opt=%s mem=%s in=%s' % (rng.choice(['rfh', 'rfh', opt()]), mem(), hx(m)), 'mut_lzma')
+            add('stream opt=rfh allow=%d calls=%s' % (rng.below(2), stream_calls(m, chunkings(rng, len(m), rng.choice(['random', 'early', 'single'])))), 'mut_stream')
+            lc, lp, pb = s['props']
+            add('raw_lzma lc=%d lp=%d pb=%d dict=%d size=%s ops=d:%s' % (lc, lp, pb, rng.choice([1, 2, 5, 4096]), rng.choice(['none', str(s['n'])]), hx(m[13:])), 'mut_raw')
+        # a header announcing a huge dictionary and size in front of a short payload
+        b = s['bytes']
+        add('lzma_dec opt=rfh in=%s' % hx(b[:1] + b'\xff\xff\xff\xff' + struct.pack('<Q', 1 << 62) + b[13:]), 'huge_header')
+    for s in l2:
+        for _ in range(6):
+            m = mutate_bytes(rng, s['bytes'])
+            add('lzma2_dec in=%s rd=%s' % (hx(m), rng.choice(['all', '1'])), 'mut_lzma2')
+            add('raw_lzma2 ops=d:%s;d:%s' % (hx(m), hx(s['bytes'])), 'mut_raw2')
+    for f in xzs:
+        for _ in range(6):
+            add('xz_dec in=%s' % hx(mutate_bytes(rng, f['bytes'])), 'mut_xz')
+        for desc, m in xz_mutants(rng, f, 10):
+            add('xz_dec in=%s' % hx(m), 'near_valid_xz')
+        # field extremes with CRCs recomputed
+        for bs in (0xFFFFFFFF, 0x40000001, 0x80000001, 0x7FFFFFFF, 0):
+            add('xz_dec in=%s' % hx(xz_file(f['blocks'], f['check'], mb_width=f['mbw'], tweak={'backward_size': bs})), 'xz_backward_size')
+        add('xz_dec in=%s' % hx(xz_file(f['blocks'], f['check'], mb_width=f['mbw'], tweak={'nrecords': rng.choice([1 << 62, ALL_ONES >> 1])})), 'xz_nrecords')
+        if f['blocks']:
+            b0 = f['blocks'][0]
+            for props in (b'', b'\x16' * 2, b'\x16' * 300):
+                try:
+                    add('xz_dec in=%s' % hx(xz_file([XzBlock(b0.payload, b0.content, props=props)] + f['blocks'][1:], f['check'], mb_width=f['mbw'])), 'xz_props_len')
+                except ValueError: pass
+            for v in (1 << 62, (1 << 63) - 1, 0):
+                add('xz_dec in=%s' % hx(xz_file([XzBlock(b0.payload, b0.content, with_packed=True, with_unpacked=True, packed_override=v, unpacked_override=v)] + f['blocks'][1:], f['check'])), 'xz_size_extremes')
+    # regression corpus (earlier panics / accepted garbage): D1, D2
+    empty = xz_file([], 0)
+    for bs in (0xFFFFFFFF, 0x40000001, 0x80000001):
+        add('xz_dec in=%s' % hx(xz_file([], 0, tweak={'backward_size': bs})), 'corpus_D1')
+    add('raw_lzma lc=3 lp=0 pb=2 dict=0 size=3 ops=d:%s' % hx(bytes.fromhex('00341949db8564f193b1fffb8fc000')), 'corpus_D2')
+    add('lzma_dec opt=rfh in=5d00001000ffffffffffffffff0000000000', 'corpus_D3')
+    run_both(ck, cases)
+    rel = run_impl([c['line'] for c in cases], release=True)
+    for c, rr in zip(cases, rel):
+        c['rel_raw'], c['rel'] = rr, parse(rr)
+        ck.note_case(c['line'], len(c['line']) > 80)
+        def verdicts(r):
+            if 'res' in r:
+                parts = r['res'].split(';')
+                return ['panic' if 'panic' in p else 'x' for p in parts]
+            return [r.get('verdict')]
+        def oracle(c):
+            for which, r in (('overflow-checked', c['r']), ('release', c['rel'])):
+                vs = verdicts(r)
+                if 'panic' in vs: return 'panic in the %s build' % which
+                if 'hang' in vs or r.get('verdict') == 'hang': return 'no termination within the watchdog in the %s build' % which
+                peak = int(r.get('peak', 0))
+                produced = len(r.get('out', '-')) // 2 + sum(len(p) for p in r.get('res', '').split(';')) // 2
+                budget = 16 * (1 << 20) + 8 * (len(c['line']) + produced)
+                if peak > budget: return 'peak live heap %d is out of proportion to input+output (%d) in the %s build' % (peak, len(c['line']) // 2 + produced, which)
+            a, b = c['r'], c['rel']
+            if a.get('verdict') != b.get('verdict') or a.get('out') != b.get('out') or a.get('res') != b.get('res'):
+                return 'overflow-checked and release builds disagree'
+            if c['meta']['kind'] == 'corpus_D1' and a.get('verdict') != 'err': return 'regression: XZ backward-size wrap accepted'
+            if c['meta']['kind'] == 'corpus_D2' and not a.get('res', '').startswith('new:err'): return 'regression: zero dictionary accepted by LzmaDecoder::new'
+            if c['meta']['kind'] == 'corpus_D3' and a.get('verdict') != 'err': return 'regression: stream without end marker accepted'
+            return None
+        judge(ck, c, ['res', 'out'] if 'res' in c['r'] else ['verdict', 'out'], oracle, 'both')
